@@ -2368,7 +2368,11 @@ start_attribute (GMarkupParseContext *context,
 
   curnode = CURRENT_NODE (ctx);
 
-  if (ctx->current_typed && ctx->current_typed->type == G_IR_NODE_PARAM)
+  if (ctx->current_typed &&
+      (ctx->current_typed->type == G_IR_NODE_PARAM ||
+       ctx->current_typed->type == G_IR_NODE_FIELD ||
+       ctx->current_typed->type == G_IR_NODE_PROPERTY ||
+       ctx->current_typed->type == G_IR_NODE_CONSTANT))
     {
       g_hash_table_insert (ctx->current_typed->attributes, g_strdup (name), g_strdup (value));
     }
